@@ -84,6 +84,57 @@ func driveC17Widths(c *driverCtx) error {
 			emitCS(c, "C13", fmt.Sprintf("C17|width-array|%s|%s|len%d", p.schema, p.typ.Kind(), ln), sa, ta, v, true)
 		}
 	}
+	// values that do not fit the destination's width, alone and as array / map items (a value outside the width is an
+	// error wherever it sits): judged like the vectors of C03 (rand_read: TLC decodes the bytes, `Fits` decides)
+	for _, p := range []pair{{`"long"`, i32, 32}, {`"long"`, i16, 16}, {`"int"`, i16, 16}} {
+		for wi, wrap := range []string{"", "array", "map"} {
+			sch, ft := p.schema, p.typ
+			switch wrap {
+			case "array":
+				sch, ft = `{"type":"array","items":`+p.schema+`}`, reflect.SliceOf(p.typ)
+			case "map":
+				sch, ft = `{"type":"map","values":`+p.schema+`}`, reflect.MapOf(reflect.TypeOf(""), p.typ)
+			}
+			t := reflect.StructOf([]reflect.StructField{{Name: "F", Type: ft, Tag: `json:"f"`}, {Name: "Z", Type: i64, Tag: `json:"z"`}})
+			sj := fmt.Sprintf(`{"type":"record","name":"O%d","fields":[{"name":"f","type":%s},{"name":"z","type":"long"}]}`, n, sch)
+			n++
+			sn, err := schemaNodeFromJSON([]byte(sj))
+			if err != nil {
+				continue
+			}
+			lim := int64(1) << (p.bits - 1)
+			for vi, v := range []int64{lim, -lim - 1, lim + 1, 70000, 1 << 32, 1<<32 + 1, math.MaxInt64, math.MinInt64, lim - 1, -lim, 5} {
+				if p.schema == `"int"` && (v > math.MaxInt32 || v < math.MinInt32) {
+					continue // not a legal int datum
+				}
+				var b []byte
+				switch wrap {
+				case "":
+					b = appendVar(b, v)
+				case "array":
+					b = appendVar(b, 3)
+					b = appendVar(b, 1)
+					b = appendVar(b, v)
+					b = appendVar(b, 2)
+					b = appendVar(b, 0)
+				case "map":
+					b = appendVar(b, 2)
+					b = append(appendVar(b, 1), 'a')
+					b = appendVar(b, 1)
+					b = append(appendVar(b, 1), 'b')
+					b = appendVar(b, v)
+					b = appendVar(b, 0)
+				}
+				b = appendVar(b, 9)
+				file := buildContainer([]byte(sj), codecs3[(vi+wi)%3], true, []byte("0123456789abcdef"), [][2]any{{1, b}})
+				r := readBack(t, file, readerKinds[(vi+wi)%len(readerKinds)], vi%2 == 0, -1, nil)
+				c.rec.NewCase()
+				c.rec.Emit(fmt.Sprintf("C17|out-of-width|%s|%s|%s", p.schema, p.typ.Kind(), wrap), map[string]any{
+					"op": "rand_read", "mode": "C03", "schema": sn, "records": []any{byteList(b)}, "target": projectType(t), "codec": codecs3[(vi+wi)%3],
+					"delivered": orEmpty(r.delivered), "recheck": orEmpty(r.recheck), "err": errString(r.err), "panic": r.panicked})
+			}
+		}
+	}
 	return nil
 }
 
